@@ -88,11 +88,21 @@ impl WorldB {
             .and_then(|r| r.challenge_for)
     }
 
-    fn tick_server(&mut self, dt: u64, obs: &mut Obs) {
+    fn tick_server(&mut self, dt: u64, transport_order: bool, obs: &mut Obs) {
         obs.sim_ms += dt;
         self.sv_ms += dt;
         self.server.update(Duration::from_millis(dt));
         obs.count("op.tick_server");
+        if transport_order {
+            // the order of a transport's update: clock first, then everything waiting in the socket, then the per-client
+            // pass; packets are handled while timed-out sessions have not been reaped yet
+            obs.count("op.tick_server_transport_order");
+            for j in 0..self.slots.len() {
+                while !self.slots[j].c2s.is_empty() {
+                    self.deliver_from_pool(j, 0, 0, false, obs);
+                }
+            }
+        }
         let mut ids = self.server.clients_id();
         ids.sort();
         for id in ids {
@@ -286,7 +296,7 @@ impl WorldB {
                 }
             }
             K_TICKCLIENT => self.tick_client(op.a as usize % ns, op.b, obs),
-            K_TICKSERVER => self.tick_server(op.a, obs),
+            K_TICKSERVER => self.tick_server(op.a, op.b == 1, obs),
             K_DELIVER => self.deliver_from_pool(op.a as usize % ns, (op.b % 2) as usize, op.c as usize, op.d % 2 == 1, obs),
             K_DROP => {
                 let slot = op.a as usize % ns;
@@ -446,7 +456,7 @@ impl WorldB {
                     }
                 }
             }
-            K_JUNK | K_MUTATE | K_REPLAY | K_FORGEREQ | K_FORGERESP | K_FORGESESS | K_TAMPER | K_TOKENSURGERY | K_CROSSRESP => self.adversary_op(op, obs),
+            K_JUNK | K_MUTATE | K_REPLAY | K_FORGEREQ | K_FORGERESP | K_FORGESESS | K_TAMPER | K_TOKENSURGERY | K_CROSSRESP | K_STALEHS | K_FLOODSTEAL => self.adversary_op(op, obs),
             _ => {}
         }
         for slot in 0..ns {
